@@ -1201,3 +1201,15 @@ m('G1-only-builtins-can-be-registered', 'C12', 'G1', 'RegisterImpl/builtin-rejec
 m('S2-registered-custom-types-rejected-on-load', 'C11', 'S2', 'FromPickleable/null-registration-rejected', 'src/treespec/serialization.cpp',
   """            if (node.custom == nullptr) [[unlikely]] {""",
   """            if (node.custom != nullptr) [[unlikely]] {""")
+m('U1-surplus-leaves-accepted', 'C15', 'U1', 'PyTreeSpec::UnflattenImpl/leaf-count', 'src/treespec/unflatten.cpp',
+  """    if (it != leaves.end()) [[unlikely]] {
+        std::ostringstream oss{};
+        oss << "Too many leaves""",
+  """    if (it == leaves.end()) [[unlikely]] {
+        std::ostringstream oss{};
+        oss << "Too many leaves""")
+m('U1-walk-ignores-surplus-leaves', 'C15', 'U1', 'PyTreeSpec::WalkImpl/leaf-count', 'src/treespec/traversal.cpp',
+  """    if (it != leaves.end()) [[unlikely]] {
+        throw py::value_error("Too many leaves for PyTreeSpec.");
+    }
+""", "")
